@@ -141,6 +141,8 @@ pub fn opts_for(prop: &str) -> GenOpts {
     let mut o = GenOpts::base();
     match prop {
         "C01" => {
+            // wrapped iterators whose exact size hint is wrong (F7c / F7d)
+            o.short_hint_pct = 8;
             o.in_unwind_pct = 5;
             // operation classes that do not concern this property directly, at a low weight:
             // what they do to the shared state must not disturb what the property states
@@ -152,6 +154,8 @@ pub fn opts_for(prop: &str) -> GenOpts {
             o.nonfused_pct = 15;
         }
         "C02" => {
+            // wrapped iterators whose exact size hint is wrong (F7c / F7d)
+            o.short_hint_pct = 15;
             o.in_unwind_pct = 4;
             // operation classes that do not concern this property directly, at a low weight:
             // what they do to the shared state must not disturb what the property states
@@ -221,6 +225,8 @@ pub fn opts_for(prop: &str) -> GenOpts {
             o.w_skip = 5;
         }
         "C06" => {
+            // wrapped iterators whose exact size hint is wrong (F7c / F7d)
+            o.short_hint_pct = 8;
             o.in_unwind_pct = 4;
             // operation classes that do not concern this property directly, at a low weight:
             // what they do to the shared state must not disturb what the property states
@@ -234,6 +240,8 @@ pub fn opts_for(prop: &str) -> GenOpts {
             o.max_ops = 6;
         }
         "C07" => {
+            // wrapped iterators whose exact size hint is wrong (F7c / F7d)
+            o.short_hint_pct = 8;
             o.in_unwind_pct = 4;
             // operation classes that do not concern this property directly, at a low weight:
             // what they do to the shared state must not disturb what the property states
@@ -248,6 +256,8 @@ pub fn opts_for(prop: &str) -> GenOpts {
             o.stale_pct = 25;
         }
         "C08" => {
+            // wrapped iterators whose exact size hint is wrong (F7c / F7d)
+            o.short_hint_pct = 8;
             o.in_unwind_pct = 5;
             // operation classes that do not concern this property directly, at a low weight:
             // what they do to the shared state must not disturb what the property states
@@ -266,6 +276,8 @@ pub fn opts_for(prop: &str) -> GenOpts {
             o.drop_panic_pct = 8;
         }
         "C09" => {
+            // wrapped iterators whose exact size hint is wrong (F7c / F7d)
+            o.short_hint_pct = 8;
             o.in_unwind_pct = 4;
             o.w_skip = 6;
             o.w_stop = 8;
@@ -282,6 +294,8 @@ pub fn opts_for(prop: &str) -> GenOpts {
             o.pre_pct = 20;
         }
         "C10" => {
+            // wrapped iterators whose exact size hint is wrong (F7c / F7d)
+            o.short_hint_pct = 8;
             o.in_unwind_pct = 4;
             // operation classes that do not concern this property directly, at a low weight:
             // what they do to the shared state must not disturb what the property states
@@ -316,6 +330,8 @@ pub fn opts_for(prop: &str) -> GenOpts {
             o.kinds = kinds;
         }
         "C12" => {
+            // wrapped iterators whose exact size hint is wrong (F7c / F7d)
+            o.short_hint_pct = 8;
             o.in_unwind_pct = 5;
             // operation classes that do not concern this property directly, at a low weight:
             // what they do to the shared state must not disturb what the property states
@@ -331,6 +347,8 @@ pub fn opts_for(prop: &str) -> GenOpts {
             o.stale_pct = 20;
         }
         "C13" => {
+            // wrapped iterators whose exact size hint is wrong (F7c / F7d)
+            o.short_hint_pct = 8;
             o.in_unwind_pct = 4;
             // "take the rest" chunk sizes at the edge of usize (known-size kinds only)
             o.huge_pct = 4;
@@ -376,6 +394,8 @@ pub fn opts_for(prop: &str) -> GenOpts {
             o.multi_iter = true;
         }
         "C15" => {
+            // wrapped iterators whose exact size hint is wrong (F7c / F7d)
+            o.short_hint_pct = 8;
             o.in_unwind_pct = 5;
             // operation classes that do not concern this property directly, at a low weight:
             // what they do to the shared state must not disturb what the property states
